@@ -1,18 +1,21 @@
 use slotted_egraphs::*;
-use verif_harness::langs::{A, T};
+use verif_harness::langs::A;
 fn main() {
-    // 1. get_syn_expr with an argument that equals the stored binder name
-    let mut eg: EGraph<T> = EGraph::default();
-    let _x = eg.add_syn_expr(RecExpr::parse("(lam $1 (f $1 $2))").unwrap());
-    let y = eg.add_syn_expr(RecExpr::parse("(lam $9 (f $9 $1))").unwrap());
-    println!("class of (lam $9 (f $9 $1)) reads back as: {}", eg.get_syn_expr(&y));
-    // 2. substitution b[x := t] through SynExprSubst: let $2 = (var $1) in (sum $1 (mul (var $1) (var $2)))
-    let mut eg2: EGraph<A> = EGraph::default();
-    let start: RecExpr<A> = RecExpr::parse("(let $2 (sum $1 (mul (var $1) (var $2))) (var $1))").unwrap();
-    let root = eg2.add_expr(start.clone());
-    let rw: Rewrite<A> = Rewrite::new("let-subst", "(let $2 ?a ?c)", "?a[(var $2) := ?c]");
-    apply_rewrites(&mut eg2, &[rw]);
-    let ex = Extractor::<A, AstSize>::new(&eg2, AstSize);
-    println!("start {start}  ->  extracted {}", ex.extract(&root, &eg2));
-    for id in eg2.ids() { for n in eg2.enodes(id) { println!("   {id:?}: {n:?}"); } }
+    let start: RecExpr<A> = RecExpr::parse("(let $1 (mul (add 2 (var $3)) (mul 1 0)) 2)").unwrap();
+    let mut eg: EGraph<A> = EGraph::default();
+    eg.add_expr(start);
+    let rws: Vec<Rewrite<A>> = vec![
+        Rewrite::new("comm-mul", "(mul ?a ?b)", "(mul ?b ?a)"),
+        Rewrite::new("add-0", "(add ?a 0)", "?a"),
+        Rewrite::new("let-add", "(let $1 (add ?a ?b) ?c)", "(add (let $1 ?a ?c) (let $1 ?b ?c))"),
+        Rewrite::new("assoc-mul", "(mul (mul ?a ?b) ?c)", "(mul ?a (mul ?b ?c))"),
+        Rewrite::new("let-mul", "(let $1 (mul ?a ?b) ?c)", "(mul (let $1 ?a ?c) (let $1 ?b ?c))"),
+        Rewrite::new("mul-0", "(mul ?a 0)", "0"),
+    ];
+    for i in 0..5 {
+        let t = std::time::Instant::now();
+        let ch = apply_rewrites(&mut eg, &rws);
+        println!("iter {i}: changed={ch} nodes={} classes={} {:.2}s", eg.total_number_of_nodes(), eg.ids().len(), t.elapsed().as_secs_f64());
+        if eg.total_number_of_nodes() > 3000 { break; }
+    }
 }
